@@ -25,6 +25,13 @@ be delivered as (the statement without trailing blanks + one line ending, UTF-8)
 books of expected file contents from those, never from what the writers received.  Statements
 include empty / blank-only ones and ones that carry, inside raw text or comments, characters some
 text APIs take for line boundaries (U+2028, U+2029, U+0085, VT, FF, FS, GS, RS, bare CR / LF).
+
+Two further families of histories have no counterpart in the model (it has no writer that calls back
+into the builder and no `disconnect` that raises) and are judged by the oracle alone (`run_special`):
+custom writers that answer certain lines by calling the builder API 0-3 times from inside `write()`
+(statements written re-entrantly, while another line is being delivered), and writers whose
+`disconnect()` fails (a device writer that times out while waiting, a caller's stream whose `flush()`
+raises `OSError`) when the caller tears down, catches the error and tears down again.
 """
 from __future__ import annotations
 
@@ -60,6 +67,8 @@ KINDS = {
     "keep": "c",  # retaining BaseWriter (keeps the objects it is handed; they are read again later)
 }
 CUSTOM = ("rec", "keep")
+XCUSTOM = ("react", "dev")  # custom writers of the oracle-only families (never sent to the model, never drawn by gen_case)
+FLAKY = ("flakybin", "flakytext")  # FileWriter over a caller's stream double whose flush() raises OSError once when armed
 DISK = {"path", "filebin", "filetext"}  # observed by reading the path through an independent handle
 REALFILE = ("filebin", "filetext")  # caller-opened file objects over a real file
 USER_BUFFERED = ("bufbin", "buftext") + REALFILE  # user-supplied objects with their own buffer, no tty
@@ -189,11 +198,125 @@ def _retaining_class():
     return Keep
 
 
+class FlakyBin(BufBin):
+    """A caller's buffered stream whose next flush() fails once it is `armed` (disk full, pipe closed): OSError, nothing is lost."""
+
+    armed = False
+
+    def flush(self):
+        if self.armed:
+            self.armed = False
+            raise OSError(28, "No space left on device")
+        super().flush()
+
+
+class FlakyText(BufText):
+    armed = False
+
+    def flush(self):
+        if self.armed:
+            self.armed = False
+            raise OSError(28, "No space left on device")
+        super().flush()
+
+
+def _reacting_class():
+    from gscrib.writers import BaseWriter
+
+    class React(BaseWriter):
+        """A custom writer that records what it is handed and answers certain lines by calling the builder API from
+        inside write() (a checkpoint / synchronising writer): `rules` = [[text the line contains, [[call, arg], ...]], ...],
+        the first matching rule runs; it does not answer lines written by its own answers beyond `depth` levels."""
+
+        def __init__(self, spec):
+            self.rules, self.max_depth = spec.get("rules", []), spec.get("depth", 1)
+            self.builder, self.budget = None, [0]
+            self.chunks, self.discs, self.connects, self.connected, self.level, self.answers, self.rejected = [], 0, 0, False, 0, 0, []
+
+        def connect(self):
+            self.connects += 1
+            self.connected = True
+            return self
+
+        def disconnect(self, wait=True):
+            self.discs += 1
+            self.connected = False
+
+        def write(self, b):
+            if not self.connected:
+                self.connect()
+            self.chunks.append(bytes(b))
+            if self.level >= self.max_depth or self.builder is None:
+                return
+            text = bytes(b).decode("utf-8")
+            for needle, calls in self.rules:
+                if needle in text:
+                    self.level += 1
+                    try:
+                        for what, arg in calls:
+                            if self.budget[0] <= 0:
+                                break
+                            self.budget[0] -= 1
+                            self.answers += 1
+                            try:
+                                do_emit(self.builder, what, arg)
+                            except core.Infra:
+                                raise
+                            except Exception as e:  # the builder rejected the call (wait() with the tool on): nothing was written
+                                self.rejected.append(type(e).__name__)
+                    finally:
+                        self.level -= 1
+                    break
+
+    return React
+
+
+def _device_class():
+    from gscrib import excepts
+    from gscrib.writers import BaseWriter
+
+    def make(name):
+        if name == "OSError":
+            return OSError(110, "Connection timed out")
+        return getattr(excepts, name)("timeout waiting for the device")
+
+    class Dev(BaseWriter):
+        """A stand-in for a serial / socket writer: connects lazily, records what it is handed.  With a `fault`
+        ({"mode": "once" | "wait", "exc": class name}) and once `armed`, disconnect() of the connected writer raises: "once" - the
+        next call, whatever `wait`; "wait" - every call with wait=True (the device stopped answering; only wait=False gets through)."""
+
+        def __init__(self, fault):
+            self.fault = fault
+            self.chunks, self.discs, self.connects, self.connected, self.armed, self.raised = [], 0, 0, False, False, 0
+
+        def connect(self):
+            self.connects += 1
+            self.connected = True
+            return self
+
+        def disconnect(self, wait=True):
+            self.discs += 1
+            if self.armed and self.connected and (self.fault["mode"] == "once" or wait):
+                if self.fault["mode"] == "once":
+                    self.armed = False
+                self.raised += 1
+                raise make(self.fault["exc"])
+            self.armed = False
+            self.connected = False
+
+        def write(self, b):
+            if not self.connected:
+                self.connect()
+            self.chunks.append(bytes(b))
+
+    return Dev
+
+
 class Slot:
-    def __init__(self, idx, kind, tmp, tag):
+    def __init__(self, idx, kind, tmp, tag, spec=None):
         from gscrib.writers import ConsoleWriter, FileWriter
 
-        self.idx, self.kind, self.letter = idx, kind, KINDS[kind]
+        self.idx, self.kind, self.letter = idx, kind, KINDS.get(kind, "b" if kind == "flakybin" else "t" if kind == "flakytext" else "c")
         self.path = self.handle = None
         self.last_file = None
         if kind == "path":
@@ -237,6 +360,15 @@ class Slot:
         elif kind == "keep":
             self.writer = _retaining_class()()
             self.handle = self.writer
+        elif kind == "react":
+            self.writer = _reacting_class()(spec or {})
+            self.handle = self.writer
+        elif kind == "dev":
+            self.writer = _device_class()(spec)
+            self.handle = self.writer
+        elif kind in FLAKY:
+            self.handle = FlakyBin() if kind == "flakybin" else FlakyText()
+            self.writer = FileWriter(self.handle)
         else:
             raise core.Infra(f"unknown writer kind {kind}")
 
@@ -258,7 +390,7 @@ class Slot:
                 return b""
         if k in ("bytesio", "stringio"):
             return self.handle.getvalue()
-        if k == "rec":
+        if k == "rec" or k in XCUSTOM:
             return b"".join(self.handle.chunks)
         if k == "keep":
             return b"".join(self.handle.seen)  # as delivered; the kept objects are read again in `record` / `check_mem`
@@ -266,13 +398,13 @@ class Slot:
 
     def visible(self):
         """What a reader of the output sees now."""
-        if self.kind in DISK or self.kind in ("bytesio", "stringio") + CUSTOM:
+        if self.kind in DISK or self.kind in ("bytesio", "stringio") + CUSTOM + XCUSTOM:
             return self.given()
         return self.handle.visible
 
     def note(self):
         """remember the file object a path writer has open (to see later whether it was closed)"""
-        if self.kind not in CUSTOM and self.writer._file is not None:
+        if self.kind not in CUSTOM + XCUSTOM and self.writer._file is not None:
             self.last_file = self.writer._file
 
     def record(self):
@@ -336,6 +468,14 @@ def do_emit(g, what, arg):
         g.set_length_units(arg)
     elif what == "nan":
         g.move(x=float("nan"))
+    elif what == "wait":
+        g.wait()
+    elif what == "pause":
+        g.pause()
+    elif what == "toolchange":
+        g.tool_change("manual", arg)
+    elif what == "annotate":
+        g.annotate(arg[0], arg[1])
     else:
         raise core.Infra(f"unknown emit {what}")
 
@@ -804,6 +944,434 @@ def run_history(case, tmp, tag="h", observe_every=True):
     return out
 
 
+# ------------------------------------------------------------------ oracle-only families (no counterpart in the model)
+# Re-entrant statements and failing disconnects.  A statement is the interval of its write() call: (start, end) on a clock
+# that ticks when a call begins and when it returns.  `a` is BEFORE `b` in call order when a's call returned before b's
+# began.  A statement written from inside a writer's write() overlaps the statement being delivered: their relative order is
+# not judged here (see the distribution counter `reentrant:...later-writer...`); two statements written one after the other
+# from inside the same write(), or at top level, are ordered, and every writer must receive them in that order.
+SPECIAL_POOL = ["rec", "keep", "bytesio", "stringio", "path", "path", "filebin", "filetext", "bufbin", "buftext", "dev"]
+NEEDLES = ["G1 ", "G0 ", "M06", "M03", "M05", "G04", "@sync", "G9", "M400", "; "]
+FAULT_EXC = ["DeviceTimeoutError", "DeviceTimeoutError", "DeviceError", "DeviceConnectionError", "OSError"]
+
+
+def gen_plain_emit(rng, serial):
+    """write-producing calls whose text holds no CR / LF (the streams of these families are split into lines at the line ending)"""
+    r = rng.random()
+    serial[0] += 1
+    if r < 0.16:
+        return ["emit", "comment", rng.choice(TEXTS[:7]) + " %d" % serial[0]]
+    if r < 0.30:
+        return ["emit", "move", rng.randint(-50, 50)]
+    if r < 0.40:
+        return ["emit", "rapid", rng.randint(0, 9)]
+    if r < 0.50:
+        return ["emit", "toolchange", rng.randint(1, 9)]
+    if r < 0.58:
+        return ["emit", "comment", "@sync %d" % serial[0]]
+    if r < 0.65:
+        return ["emit", "tool_on", None]
+    if r < 0.71:
+        return ["emit", "tool_off", None]
+    if r < 0.77:
+        return ["emit", "dist", rng.choice(["relative", "absolute"])]
+    if r < 0.83:
+        return ["emit", "sleep", rng.randint(1, 5)]
+    if r < 0.89:
+        return ["emit", "wait", None]
+    if r < 0.95:
+        return ["emit", "raw", rng.choice(["G4 P1", "M117 été", "G1 X1 ; café", "  G0 Z5   ", "M0", ""])]
+    return ["emit", "movec", rng.choice(TEXTS[:7])]
+
+
+def gen_answer(rng, serial):
+    """one builder call made from inside a writer's write()"""
+    serial[0] += 1
+    r = rng.random()
+    if r < 0.40:
+        return ["comment", rng.choice(["checkpoint", "synchronisé ✓", "réponse"]) + " %d" % serial[0]]
+    if r < 0.62:
+        return ["wait", None]
+    if r < 0.74:
+        return ["sleep", rng.randint(1, 3)]
+    if r < 0.84:
+        return ["raw", rng.choice(["M400", "G4 P0", "M117 prêt"])]
+    if r < 0.92:
+        return ["annotate", ["k%d" % serial[0], rng.choice(["v", "é", "3.175 mm"])]]
+    return ["move", rng.randint(-9, 9)]
+
+
+def gen_react_spec(rng, serial, depth):
+    rules = []
+    for needle in rng.sample(NEEDLES, rng.randint(1, 3)):
+        rules.append([needle, [gen_answer(rng, serial) for _ in range(rng.choice([0, 1, 2, 2, 3, 3]))]])
+    return {"rules": rules, "depth": depth}
+
+
+def gen_special(rng, maxlen=16):
+    """A history with writers that write re-entrantly and / or writers whose disconnect fails when the caller tears down."""
+    serial = [0]
+    n = rng.randint(1, 4)
+    kinds = [rng.choice(SPECIAL_POOL) for _ in range(n)]
+    specs = {}
+    r = rng.random()
+    reentrant, faulty = r < 0.55, r >= 0.45
+    if reentrant:
+        first = rng.randrange(n)
+        kinds[first] = "react"
+        specs[str(first)] = gen_react_spec(rng, serial, rng.choice([1, 1, 2]))
+        if n >= 3 and rng.random() < 0.3:
+            second = rng.choice([i for i in range(n) if i != first])
+            kinds[second] = "react"
+            specs[str(second)] = gen_react_spec(rng, serial, 1)
+    if faulty:
+        free = [i for i in range(n) if kinds[i] != "react"] or [rng.randrange(n)]
+        for i in rng.sample(free, min(len(free), rng.choice([1, 1, 1, 2]))):
+            kinds[i] = rng.choice(["dev", "dev", "dev", "flakybin", "flakytext"])
+            specs.pop(str(i), None)
+            if kinds[i] == "dev":
+                specs[str(i)] = {"mode": rng.choice(["once", "once", "wait"]), "exc": rng.choice(FAULT_EXC)}
+    order = list(range(n))
+    if rng.random() < 0.6:
+        rng.shuffle(order)
+    ops = [["add", i] for i in order if rng.random() < 0.9]
+    for _ in range(rng.randint(2, maxlen)):
+        k = rng.choice(["emit"] * 8 + ["add", "add", "remove", "flush", "flush", "teardown", "teardown", "disc"])
+        if k == "emit":
+            ops.append(gen_plain_emit(rng, serial))
+        elif k in ("add", "remove", "disc"):
+            ops.append([k, rng.randrange(n)])
+        elif k == "teardown":
+            ops.append(["teardown", rng.choice([None, None, True, False, "with", "with-raise"]), rng.choice([False, False, None, True]),
+                        faulty and rng.random() < 0.85])
+        else:
+            ops.append([k])
+    if faulty and rng.random() < 0.7:  # the usual shape: the job ends with statements still pending and a failing clean-up
+        ops.append(gen_plain_emit(rng, serial))
+        ops.append(["teardown", rng.choice([None, None, True, "with", "with-raise"]), rng.choice([False, False, None]), True])
+    family = "reentrant+teardown-fault" if reentrant and faulty else "reentrant" if reentrant else "teardown-fault"
+    return {"family": family, "le": rng.choice(LINE_ENDINGS), "kinds": kinds, "specs": specs, "ops": ops}
+
+
+def run_special(case, tmp, tag="x"):
+    """One history of the oracle-only families on real objects; returns an Outcome (problems, notes, counters)."""
+    from gscrib import GCodeBuilder
+
+    class SpyBuilder(GCodeBuilder):
+        """the real builder; every statement is noted (with the interval of its call) where it enters write()"""
+
+        def write(self, statement):
+            clock[0] += 1
+            rec = {"s": statement, "start": clock[0], "end": None, "b": statement_bytes(statement, case["le"]), "level": level[0]}
+            statements.append(rec)
+            level[0] += 1
+            try:
+                super().write(statement)
+            finally:
+                level[0] -= 1
+                clock[0] += 1
+                rec["end"] = clock[0]
+
+    _quiet()
+    clock, level, statements = [0], [0], []
+    out = Outcome()
+    kinds, specs = case["kinds"], case.get("specs", {})
+    n = len(kinds)
+    ending = statement_bytes("", case["le"])
+    slots = [Slot(i, k, tmp, tag, specs.get(str(i))) for i, k in enumerate(kinds)]
+    g = SpyBuilder(output=None, print_lines=False, line_endings=case["le"])
+    budget = [150]
+    for s in slots:
+        if s.kind == "react":
+            s.writer.builder, s.writer.budget = g, budget
+    by_id = {id(s.writer): s.idx for s in slots}
+    registered = []
+    due_for = {i: [] for i in range(n)}  # the statements (records) writer i's output must hold, in the order their calls began
+    closed_path = set(range(n))
+    seen_notes = set()
+
+    def problem(tag_, step, text):
+        out.problems.append((tag_, step, text))
+
+    def note(text):
+        if text not in seen_notes:
+            seen_notes.add(text)
+            out.notes.append(text)
+
+    def impl_reg():
+        ids = []
+        for i in range(n + 3):
+            try:
+                w = g.get_writer(i)
+            except IndexError:
+                break
+            ids.append(by_id.get(id(w), -1))
+        return ids
+
+    def as_bytes(value):
+        return value.encode("utf-8") if isinstance(value, str) else value
+
+    def lines_of(s, value, complete):
+        """what an output holds, as lines (a custom writer: the byte strings it was handed, one per call)"""
+        if s.kind in ("rec",) + XCUSTOM:
+            return list(s.handle.chunks), None
+        if s.kind == "keep":
+            return list(s.handle.seen), None
+        pieces = as_bytes(value).split(ending)
+        rest = pieces.pop()
+        return [p + ending for p in pieces], (rest if rest and complete else None)
+
+    def judge_output(s, value, step, complete, where):
+        """`value` against the statements due to writer s: each exactly once, as its own bytes, ordered statements in call order"""
+        lines, rest = lines_of(s, value, complete)
+        who = f"output {s.idx} ({s.kind})"
+        if rest is not None:
+            problem("same-bytes", step, f"{where} {who} ends with {rest!r}, not a whole line")
+            return
+        due = due_for[s.idx]
+        in_start_order = [r["b"] for r in due]
+        if lines == in_start_order or (not complete and lines == in_start_order[:len(lines)]):
+            return  # the order in which the calls began is always a valid one
+        # in general: place every line on a statement not yet placed that has the same bytes and that no unplaced statement precedes
+        # (no unplaced call returned before its call began); among those the one whose call returned first (it constrains the rest most)
+        by_bytes = {}
+        for r in due:
+            by_bytes.setdefault(r["b"], []).append(r)
+        by_end = sorted(due, key=lambda r: r["end"])
+        placed, k = set(), 0
+        for j, ln in enumerate(lines):
+            cands = by_bytes.get(ln)
+            if cands is None:
+                problem("same-bytes", step, f"{where} {who} holds {ln!r} (line {j}), which is the line of no statement written while it was registered "
+                                            f"({in_start_order!r})")
+                return
+            free = [r for r in cands if r["start"] not in placed]
+            if not free:
+                problem("exactly-once", step, f"{where} {who} holds {ln!r} more often than it was written while registered: {lines!r}")
+                return
+            while by_end[k]["start"] in placed:
+                k += 1
+            first_to_return = by_end[k]
+            ok = [r for r in free if r["start"] < first_to_return["end"]]
+            if not ok:
+                problem("call-order", step, f"{where} {who} holds {ln!r} (line {j}) before {first_to_return['b']!r}, but the call that wrote the latter "
+                                            f"(clock {first_to_return['start']}-{first_to_return['end']}) had returned before the call that wrote the former began "
+                                            f"(clock {min(r['start'] for r in free)}); all of it: {lines!r}; statements in call order: {in_start_order!r}")
+                return
+            rec = min(ok, key=lambda r: r["end"])
+            placed.add(rec["start"])
+            if rec["level"] > 0 and any(u["start"] < rec["start"] < u["end"] and u["start"] not in placed for u in due):
+                note("reentrant:a-later-writer-received-the-nested-line-before-the-line-being-delivered(order-not-judged)")
+        missing = [r["b"] for r in due if r["start"] not in placed]
+        if complete and missing:
+            problem("file-content" if where.startswith("after") else "exactly-once", step,
+                    f"{where} {who} lacks {missing!r}: it holds {lines!r}, the statements written while registered are {in_start_order!r}")
+
+    def check_all(step):
+        for s in slots:
+            s.note()
+            if s.kind in DISK:
+                judge_output(s, s.visible(), step, False, "at this moment")
+            else:
+                judge_output(s, s.given(), step, True, "at this moment")
+            if s.kind == "keep" and s.handle.chunks != s.handle.seen:
+                problem("same-bytes", step, f"writer {s.idx} (keep): the kept objects now read {s.handle.chunks!r}, they were delivered as {s.handle.seen!r}")
+
+    def check_flushed(step, ids, what):
+        for i in ids:
+            s = slots[i]
+            if s.kind in DISK or s.kind in USER_BUFFERED + FLAKY + ("path",):
+                out.notes.append(f"special:content-after-{'a-caught-and-repeated-teardown' if 'repeated' in what else what}:{s.kind}" + (":some" if due_for[i] else ":empty"))
+            judge_output(s, s.visible(), step, True, f"after {what}")
+
+    def connected(s):
+        if s.kind in XCUSTOM:
+            return s.handle.connected
+        if s.kind in CUSTOM:
+            return None
+        return s.writer._file is not None
+
+    class Abort(Exception):
+        pass
+
+    def tear_down(op, step, final=False):
+        """the caller's clean-up: teardown (one of its spellings); if it raises, catch and tear down again (then without waiting)"""
+        first, retry, arm = (None, False, False) if final else (op[1], op[2], op[3])
+        was = list(registered)
+        discs0 = {i: slots[i].handle.discs for i in was if slots[i].kind in CUSTOM + XCUSTOM}
+        armed = []
+        if arm:
+            for i in was:
+                s = slots[i]
+                if (s.kind == "dev" and s.handle.fault and s.handle.connected) or (s.kind in FLAKY and s.writer._file is not None):
+                    s.handle.armed = True
+                    armed.append(i)
+        attempts = [first, retry] + [False] * (len(armed) + 2)
+        raised = []
+        for how in attempts:
+            try:
+                if how in ("with", "with-raise"):
+                    with g:
+                        if how == "with-raise":
+                            raise Abort()
+                elif how is None:
+                    g.teardown()
+                else:
+                    g.teardown(wait=how)
+            except Abort:
+                break
+            except core.Infra:
+                raise
+            except Exception as e:
+                raised.append(type(e).__name__)
+                continue
+            break
+        else:
+            problem("teardown", step, f"teardown kept raising: {raised}")
+        for s in slots:
+            if s.kind in ("dev",) + FLAKY:
+                s.handle.armed = False
+        what = "teardown" if not raised else f"a teardown that raised {'/'.join(raised)}, was caught and repeated"
+        out.notes.append(f"special:teardown:{'armed' if armed else 'plain'}:raised-{min(len(raised), 3)}x")
+        for e in raised:
+            out.notes.append("special:teardown-raised:" + e)
+        if armed and not raised:
+            out.notes.append("special:teardown:armed-but-nothing-raised")
+        registered.clear()
+        left = impl_reg()
+        if left:
+            problem("teardown", step, f"writers {left} are still registered after {what}")
+        for i in was:
+            s = slots[i]
+            if s.kind == "path":
+                closed_path.add(i)
+            c = connected(s)
+            if c:
+                problem("teardown", step, f"writer {i} ({s.kind}) is still connected after {what}")
+            if i in discs0 and s.handle.discs <= discs0[i]:
+                problem("teardown", step, f"custom writer {i} ({s.kind}) was not disconnected by {what}")
+            if s.kind not in ("path",) + CUSTOM + XCUSTOM and s.handle.closed:
+                problem("teardown", step, f"{what} closed the user-supplied stream of writer {i}")
+        check_flushed(step, was, what)
+
+    def play(op, step):
+        kind = op[0]
+        out.kinds_used.add(kind)
+        if kind == "add":
+            g.add_writer(slots[op[1]].writer)
+            if op[1] not in registered:
+                registered.append(op[1])
+        elif kind == "remove":
+            g.remove_writer(slots[op[1]].writer)
+            if op[1] in registered:
+                registered.remove(op[1])
+        elif kind == "disc":
+            slots[op[1]].writer.disconnect()
+            if slots[op[1]].kind == "path":
+                closed_path.add(op[1])
+        elif kind == "emit":
+            n_stmt = len(statements)
+            try:
+                do_emit(g, op[1], op[2])
+            except core.Infra:
+                raise
+            except Exception as e:
+                out.errors.append(type(e).__name__)
+            new = statements[n_stmt:]
+            out.statements += len(new)
+            if len(new) > 1:
+                note(f"reentrant:statements-per-call:{min(len(new), 5)}{'+' if len(new) >= 5 else ''}")
+                note(f"reentrant:nesting-depth:{max(r['level'] for r in new)}")
+            for rec in new:
+                if rec["b"] is None:
+                    continue
+                for i in registered:
+                    if i in closed_path and slots[i].kind == "path":
+                        due_for[i] = []
+                        closed_path.discard(i)
+                    due_for[i].append(rec)
+                    out.lines_to_real += 1
+        elif kind == "flush":
+            g.flush()
+            check_flushed(step, list(registered), "flush()")
+        elif kind == "teardown":
+            tear_down(op, step)
+        else:
+            raise core.Infra(f"unknown op {op}")
+        got_reg = impl_reg()
+        if got_reg != registered:
+            problem("registration", step, f"registered writers are {got_reg}, expected {registered}")
+        check_all(step)
+
+    try:
+        for step, op in enumerate(case["ops"]):
+            play(op, step)
+        final_step = len(case["ops"])
+        tear_down(None, final_step, final=True)
+        for s in slots:  # the owner disconnects the writers it still holds, then closes its own streams
+            if s.kind not in CUSTOM:
+                s.writer.disconnect()
+        for s in slots:
+            if s.kind not in ("path", "bytesio", "stringio") + CUSTOM + XCUSTOM:
+                s.handle.close()
+        for s in slots:
+            judge_output(s, s.visible(), final_step + 1, True, "after closing,")
+    finally:
+        for s in slots:
+            try:
+                if s.kind not in CUSTOM:
+                    s.writer.disconnect()
+            except Exception:
+                pass
+            s.cleanup()
+    out.answers = sum(s.handle.answers for s in slots if s.kind == "react")
+    out.notes.extend("special:call-from-inside-write-rejected:" + e for s in slots if s.kind == "react" for e in s.handle.rejected)
+    return out
+
+
+def special_digest(case):
+    return {"family": case["family"], "le": case["le"], "kinds": case["kinds"], "specs": case.get("specs", {}), "ops": case["ops"]}
+
+
+def judge_special(R, case, out, label):
+    R.evaluations += 1
+    R.count(label, "special:family:" + case["family"])
+    for k in case["kinds"]:
+        R.count("special:kind:" + k)
+    for op in case["ops"]:
+        R.count("special:op:" + op[0] + (f"({op[1]},retry={op[2]},{'armed' if op[3] else 'plain'})" if op[0] == "teardown" else ""))
+    R.dist["special:statements-entering-write"] += out.statements
+    R.dist["special:statements-written-from-inside-write"] += out.answers
+    for e in out.errors:
+        R.count("special:emit-raised:" + e)
+    for note in out.notes:
+        R.count(note)
+    for tag, step, text in out.problems[:3]:
+        R.fail(special_digest(case), f"step {step}: {text}", tag=tag)
+
+
+def run_special_batch(R, cases, tmp, label):
+    for j, case in enumerate(cases):
+        judge_special(R, case, run_special(case, tmp, tag=f"{label[:2]}{j % 50}"), label)
+
+
+SPECIAL_CORPUS = [
+    # a checkpoint writer between a stream and a recorder answers a tool change with a comment and a wait
+    {"family": "reentrant", "le": "\\n", "kinds": ["bytesio", "react", "rec", "path"],
+     "specs": {"1": {"rules": [["M06", [["comment", "checkpoint: outil changé"], ["wait", None]]]], "depth": 1}},
+     "ops": [["add", 0], ["add", 1], ["add", 2], ["add", 3], ["emit", "move", 1], ["emit", "toolchange", 2], ["emit", "move", 2], ["flush"],
+             ["emit", "toolchange", 3], ["teardown", None, False, False]]},
+    # a device writer that times out while waiting, in front of a path-based file and a caller-opened one; the caller gives up waiting
+    {"family": "teardown-fault", "le": "\\r\\n", "kinds": ["rec", "dev", "path", "filetext"],
+     "specs": {"1": {"mode": "wait", "exc": "DeviceTimeoutError"}},
+     "ops": [["add", 0], ["add", 1], ["add", 2], ["add", 3], ["emit", "move", 1], ["emit", "comment", "fin ✓"], ["teardown", None, False, True],
+             ["add", 1], ["add", 2], ["emit", "move", 2], ["teardown", "with", None, True]]},
+    # a caller's stream whose flush fails once (disk full), alone and in front of a binary real file
+    {"family": "teardown-fault", "le": "\n", "kinds": ["flakytext", "filebin"], "specs": {},
+     "ops": [["add", 0], ["add", 1], ["emit", "comment", "pièce nº 1"], ["emit", "rapid", 3], ["teardown", True, None, True]]},
+]
+
+
 # ------------------------------------------------------------------ comparing with the model
 def parse_model_record(text):
     parts = text.split(" ")
@@ -1014,6 +1582,14 @@ def run(R: core.Run):
                      "owner disconnect of the text one, one write-producing call (non-ASCII comment, CRLF), flush, teardown(), teardown(wait=False), "
                      "a with-block holding one write-producing call and left through an exception; final state "
                      "compared, content read back from disk (every prefix is itself a case)"}
+        # oracle-only families (the model has no writer that writes re-entrantly and no disconnect that raises)
+        run_special_batch(R, SPECIAL_CORPUS, tmp, "special-corpus")
+        run_special_batch(R, [gen_special(R.rng) for _ in range(R.n(300, 6000))], tmp, "special-random")
+        R.extra["oracle_only_families"] = (
+            "custom writers that call the builder API 0-3 times from inside write() on certain lines (nesting <= 2 per writer), and writers whose "
+            "disconnect raises (DeviceTimeoutError / DeviceError / DeviceConnectionError / OSError; a caller's stream whose flush raises OSError) when the caller "
+            "tears down, catches the error and tears down again: implementation + oracle only, counted under `special:*`, not sent to the model; "
+            "the order of a statement written from inside write() relative to the line being delivered is not judged")
         if R.broken:
             R.search_batches += 1
             for j in range(R.n(1500, 6000)):
@@ -1022,6 +1598,7 @@ def run(R: core.Run):
                 R.evaluations += 1
                 for tag, step, text in o.problems[:3]:
                     R.fail(case_digest(case), f"step {step}: {text}", tag=tag)
+            run_special_batch(R, [gen_special(R.rng, maxlen=24) for _ in range(R.n(600, 3000))], tmp, "special-search")
     finally:
         shutil.rmtree(tmp, ignore_errors=True)
     return {}, {}
@@ -1035,6 +1612,16 @@ def replay(data):
         print("replay: no case recorded (", data.get("no_longer_checks"), ")")
         return 1
     tmp = tempfile.mkdtemp(prefix="gscrib_c14_")
+    if case.get("family"):  # an oracle-only family: no model record to compare with
+        try:
+            o = run_special(case, tmp, tag="replay")
+        finally:
+            shutil.rmtree(tmp, ignore_errors=True)
+        for tag, step, text in o.problems:
+            print(f"oracle[{tag}] step {step}: {text}")
+        if not o.problems:
+            print("oracle: ok")
+        return 1 if o.problems else 0
     try:
         o = run_history(case, tmp, tag="replay")
         mo = core.run_model(MODE, [model_line(o)])[0]
